@@ -59,12 +59,37 @@ def satisfiable(pc):
     return str(r)
 
 
-def prove(pc, goal, timeout_ms=None, want_model=True, quick=False):
+def prove(pc, goal, timeout_ms=None, want_model=True, quick=False, hint=None):
     """Discharge `pc ==> goal`.  Returns (verdict, backend, ms, model_or_reason)
     verdict in {'proved', 'refuted', 'undecided'}."""
     timeout_ms = timeout_ms or Z3_TIMEOUT_MS
     quantified = any(has_quantifier(f) for f in pc) or has_quantifier(goal)
     ms = 0.0
+    if hint in ('cvc5', 'z3-4.8-cli', 'z3') and not quick:
+        # ordering heuristic only: the back end that discharged this obligation on the last recorded
+        # run is asked first; if it does not prove the goal the whole ladder below runs as usual
+        sh = z3.Solver()
+        sh.add(*pc)
+        sh.add(z3.Not(goal))
+        if hint == 'z3':
+            sh.set('timeout', timeout_ms)
+            t0 = time.time()
+            rh = sh.check()
+            ms += (time.time() - t0) * 1000
+            stats['z3_ms'] += ms
+            if rh == z3.unsat:
+                return 'proved', 'z3', ms, None
+            if rh == z3.sat:
+                return 'refuted', 'z3', ms, (sh.model() if want_model else None)
+        else:
+            try:
+                text = sh.to_smt2()
+                vh, msh, _ = run_cvc5(text) if hint == 'cvc5' else run_z3cli(text)
+            except Exception:
+                vh, msh = 'error', 0.0
+            ms += msh
+            if vh == 'unsat':
+                return 'proved', hint, ms, None
     if quick:
         # one short attempt with the default strategy only
         s = z3.Solver()
